@@ -592,7 +592,14 @@ func r084(c *Ctx, r *R) {
 			})
 			return found, pos
 		}
-		w1, _ := usesPrefix(tq, "fmt.Sprintf")
+		// the writer builds the key from the constant (Sprintf, "+", ...)
+		w1 := false
+		ast.Inspect(tq.Body, func(n ast.Node) bool {
+			if id, ok := n.(*ast.Ident); ok && prefixObj != nil && tpkg.TypesInfo.ObjectOf(id) == prefixObj {
+				w1 = true
+			}
+			return true
+		})
 		h, _ := usesPrefix(fq, "strings.HasPrefix")
 		t, _ := usesPrefix(fq, "strings.TrimPrefix")
 		r.Check(prefixObj != nil && w1 && h && t, "metadata-prefix", fq.Pos(), "metadata keys are prefixed on write and recognised/stripped with HasPrefix/TrimPrefix of the same constant on read",
